@@ -385,8 +385,14 @@ func c19NewMirrorLog(r *rand.Rand, origin string, n int64) *c19MirrorLog {
 // c19MirrorTileFiles renders hash tiles and gzip-compressed entry bundles of
 // the tree of size n under prefix (e.g. "mirror/<hash>/").
 func c19MirrorTileFiles(m *c19MirrorLog, n int64, prefix string, files map[string]c19File, onlyPartial bool) {
+	c19MirrorTileFilesKinds(m, n, prefix, files, onlyPartial, "entries")
+}
+
+// c19MirrorTileFilesKinds is c19MirrorTileFiles with a choice of leaf-level
+// tiles (none: hash tiles only, which is all the health check reads).
+func c19MirrorTileFilesKinds(m *c19MirrorLog, n int64, prefix string, files map[string]c19File, onlyPartial bool, leafKinds ...string) {
 	pfx := m.Tree.Prefix(n)
-	for _, t := range vfref.RequiredTiles(n, "entries") {
+	for _, t := range vfref.RequiredTiles(n, leafKinds...) {
 		if onlyPartial && t.Width == 256 {
 			continue
 		}
